@@ -385,6 +385,9 @@ Record cspec := mkCSp {
   cp_putin : list (pkey * fcoins);  (* ghost: (collective, account) -> bonds put in since the last return *)
   cp_lock : list (pkey * Z);        (* ghost: the latest unlock time the contributor ever committed to *)
   cp_book : list (Z * fcoins);      (* ghost: donations seeded minus donations sent, per collective *)
+  cp_don : list (pkey * Z);         (* ghost: the donation share the contributor last set (sdk.Dec) *)
+  cp_ops : list (Z * Z);            (* ghost: accepted operations that may have moved coins of the collective's two
+                                       accounts (each rounds once: at most half a unit per token) *)
   cp_mod : fcoins;                  (* module account balance as last observed (bank) *)
   cp_colls : list (Z * ocoll) }.    (* stored records as last observed *)
 Definition putin_of (S : cspec) (c a : Z) : fcoins := match pget (c, a) (cp_putin S) with Some b => b | None => czero end.
@@ -397,23 +400,50 @@ Definition has_contrib (l : list (Z * ocoll)) (c a : Z) : bool :=
 Definition stored_cc (l : list (Z * ocoll)) (c a : Z) : option occ :=
   match zget c l with Some ob => zget a (oc_contribs ob) | None => None end.
 
+Definition don_of (S : cspec) (c a : Z) : Z := match pget (c, a) (cp_don S) with Some x => x | None => 0 end.
+Definition ops_of (S : cspec) (c : Z) : Z := match zget c (cp_ops S) with Some n => n | None => 0 end.
+Definition bump (S : cspec) (c n : Z) : list (Z * Z) := zset c (ops_of S c + n) (cp_ops S).
 Definition co_ghost (accts : list Z) (S : cspec) (now : Z) (op : co_op) (o : cobs) : cspec :=
   match op with
   | CCreate a c bonds _ _ _ =>
-      mkCSp (pset (c, a) (cof bonds) (cp_putin S)) (cp_lock S) (zset c czero (cp_book S)) (cp_mod S) (cp_colls S)
-  | CContribute a c bonds => mkCSp (pset (c, a) (cadd (putin_of S c a) (cof bonds)) (cp_putin S)) (cp_lock S) (cp_book S) (cp_mod S) (cp_colls S)
-  | CDonate a c lock _ _ => mkCSp (cp_putin S) (pset (c, a) (Z.max lock (lock_of S c a)) (cp_lock S)) (cp_book S) (cp_mod S) (cp_colls S)
-  | CWithdraw a c => mkCSp (pset (c, a) czero (cp_putin S)) (pset (c, a) 0 (cp_lock S)) (cp_book S) (cp_mod S) (cp_colls S)
+      mkCSp (pset (c, a) (cof bonds) (cp_putin S)) (cp_lock S) (zset c czero (cp_book S)) (pset (c, a) 0 (cp_don S)) (zset c 1 (cp_ops S)) (cp_mod S) (cp_colls S)
+  | CContribute a c bonds => mkCSp (pset (c, a) (cadd (putin_of S c a) (cof bonds)) (cp_putin S)) (cp_lock S) (cp_book S) (cp_don S) (bump S c 1) (cp_mod S) (cp_colls S)
+  | CDonate a c lock don _ => mkCSp (cp_putin S) (pset (c, a) (Z.max lock (lock_of S c a)) (cp_lock S)) (cp_book S) (pset (c, a) don (cp_don S)) (bump S c 1) (cp_mod S) (cp_colls S)
+  | CWithdraw a c => mkCSp (pset (c, a) czero (cp_putin S)) (pset (c, a) 0 (cp_lock S)) (cp_book S) (pset (c, a) 0 (cp_don S)) (bump S c 2) (cp_mod S) (cp_colls S)
   | CRemove c =>
       let gone := filter (fun a => member S c a && negb (has_contrib (co_colls o) c a)) accts in
       mkCSp (fold_left (fun acc a => pset (c, a) czero acc) gone (cp_putin S))
             (fold_left (fun acc a => pset (c, a) 0 acc) gone (cp_lock S))
-            (if zhas c (co_colls o) then cp_book S else zset c czero (cp_book S)) (cp_mod S) (cp_colls S)
-  | CSendDonation c _ amt => mkCSp (cp_putin S) (cp_lock S) (zset c (csub (fget c (cp_book S)) (cof amt)) (cp_book S)) (cp_mod S) (cp_colls S)
-  | CSeed c amt => mkCSp (cp_putin S) (cp_lock S) (zset c (cadd (fget c (cp_book S)) (cof amt)) (cp_book S)) (cp_mod S) (cp_colls S)
-  | CRotate a a' _ => mkCSp (prot a a' (cp_putin S)) (prot a a' (cp_lock S)) (cp_book S) (cp_mod S) (cp_colls S)
+            (if zhas c (co_colls o) then cp_book S else zset c czero (cp_book S))
+            (fold_left (fun acc a => pset (c, a) 0 acc) gone (cp_don S)) (bump S c (2 * Z.of_nat (List.length accts))) (cp_mod S) (cp_colls S)
+  | CSendDonation c _ amt => mkCSp (cp_putin S) (cp_lock S) (zset c (csub (fget c (cp_book S)) (cof amt)) (cp_book S)) (cp_don S) (cp_ops S) (cp_mod S) (cp_colls S)
+  | CSeed c amt => mkCSp (cp_putin S) (cp_lock S) (zset c (cadd (fget c (cp_book S)) (cof amt)) (cp_book S)) (cp_don S) (cp_ops S) (cp_mod S) (cp_colls S)
+  | CRotate a a' _ => mkCSp (prot a a' (cp_putin S)) (prot a a' (cp_lock S)) (cp_book S) (prot a a' (cp_don S)) (cp_ops S) (cp_mod S) (cp_colls S)
   end.
 
+(* the two accounts of a collective against the ghost record.  Exact (rational) shares, scaled by 10^18:
+   the bond account should hold sum (1-d_a) b_a, the donation account sum d_a b_a; every accepted operation
+   rounds once, so the holdings may be off by half a unit per token and operation *)
+Definition exp_parts (accts : list Z) (G : cspec) (c d : Z) : Z * Z :=
+  fold_left (fun acc a => let b := putin_of G c a d in let dn := don_of G c a in
+                          (fst acc + b * (PREC - dn), snd acc + b * dn)) accts (0, 0).
+Definition accounts_clauses (accts : list Z) (G : cspec) (colls : list (Z * ocoll)) : list string :=
+  flat_map (fun e =>
+    let c := fst e in let tol := (ops_of G c + 1) * PREC in
+    flat_map (fun d =>
+      let '(ec, ed) := exp_parts accts G c d in
+      let hc := cof (oc_caddr (snd e)) d * PREC in let hd := cof (oc_daddr (snd e)) d * PREC in
+      flag (2 * (ec - hc) <=? tol) "collective_account_short_of_contributors_bonds"
+      ++ (if tol <? 2 * Z.abs (hd - ed) then ["donation_account_not_sum_of_donated_parts"%string]
+          else flag (Z.abs (hd - ed) <? PREC) "donation_account_off:rounding")) U) colls.
+(* a refused withdrawal: how many units the two accounts are short of round((1-d)b) / round(d b) *)
+Definition withdraw_shortage (S : cspec) (c a : Z) : Z :=
+  match zget c (cp_colls S) with
+  | None => 0
+  | Some ob =>
+      fold_left (fun acc d => let b := putin_of S c a d in let dn := don_of S c a in
+                              Z.max acc (Z.max (chop_round (b * (PREC - dn)) - cof (oc_caddr ob) d) (chop_round (b * dn) - cof (oc_daddr ob) d))) U 0
+  end.
 Definition co_step_clauses (accts : list Z) (S : cspec) (now : Z) (op : co_op) (o : cobs) : list string :=
   let mod' := cof (co_mod o) in
   let out := csub (cp_mod S) mod' in
@@ -421,7 +451,12 @@ Definition co_step_clauses (accts : list Z) (S : cspec) (now : Z) (op : co_op) (
     flag (ceq out czero && forallb (fun a => ceq (cdelta o a) czero) accts) "rejected_but_changed"
     (* once the lock has expired a contributor can withdraw *)
     ++ match op with
-       | CWithdraw a c => flag (negb (member S c a && (lock_of S c a <=? now))) "withdraw_refused_after_lock"
+       | CWithdraw a c =>
+           if member S c a && (lock_of S c a <=? now) then
+             (* short by more than the rounding of the operations so far: somebody else's bonds are missing *)
+             if ops_of S c + 1 <? 2 * withdraw_shortage S c a then ["withdraw_refused_accounts_short"%string]
+             else ["withdraw_refused_after_lock"%string]
+           else []
        | _ => []
        end
   else
@@ -436,6 +471,7 @@ Definition co_step_clauses (accts : list Z) (S : cspec) (now : Z) (op : co_op) (
           "bond_record_not_what_was_put_in"
   ++ flag (forallb (fun e => forallb (fun x => lock_of G (fst e) (fst x) <=? oc_lock (snd x)) (oc_contribs (snd e))) (co_colls o))
           "lock_lowered"
+  ++ accounts_clauses accts G (co_colls o)
   ++ match op with
      | CWithdraw a c =>
          flag (lock_of S c a <=? now) "withdrawn_while_locked"
@@ -463,7 +499,7 @@ Definition co_step_clauses (accts : list Z) (S : cspec) (now : Z) (op : co_op) (
      end.
 Definition co_next (accts : list Z) (S : cspec) (now : Z) (op : co_op) (o : cobs) : cspec :=
   let G := if co_res o =? 0 then co_ghost accts S now op o else S in
-  mkCSp (cp_putin G) (cp_lock G) (cp_book G) (cof (co_mod o)) (co_colls o).
+  mkCSp (cp_putin G) (cp_lock G) (cp_book G) (cp_don G) (cp_ops G) (cof (co_mod o)) (co_colls o).
 Fixpoint co_clauses (accts : list Z) (S : cspec) (h : list (Z * co_op * cobs)) : list string :=
   match h with
   | [] => []
@@ -477,7 +513,7 @@ Definition case_clauses (c : c18_case) : list string :=
   match c with
   | CSpend bank0 mod0 h => sp_clauses (map fst bank0) (mkSS [] [] [] (cof mod0) [] actors) h
   | CUbi hardcap recs0 books0 h => ubi_clauses (mkUSp recs0 recs0 books0 0) h
-  | CColl bank0 mod0 h => co_clauses (map fst bank0) (mkCSp [] [] [] (cof mod0) []) h
+  | CColl bank0 mod0 h => co_clauses (map fst bank0) (mkCSp [] [] [] [] [] (cof mod0) []) h
   end.
 Fixpoint violations_from (n : nat) (cs : list c18_case) : list (nat * list string) :=
   match cs with [] => [] | c :: r =>
